@@ -23,6 +23,10 @@ type zvAbs struct {
 // key position.
 var zvFill []int
 
+// zvTombAt: -2 = every leaf entry has a symbolic tombstone flag (default); otherwise the flags are
+// concrete and only the leaf entry with this index (in key order; -1 = none) is a tombstone.
+var zvTombAt = -2
+
 func zvGenNode(h int, isRoot bool, prev **int, a *zvAbs) (*node[int, int], int) {
 	n := &node[int, int]{}
 	first := 0
@@ -37,7 +41,12 @@ func zvGenNode(h int, isRoot bool, prev **int, a *zvAbs) (*node[int, int], int) 
 			n.m = lo + vrt.Choice(4-lo)
 		}
 		for i := 0; i < n.m; i++ {
-			k, v, r := vrt.Int(), vrt.Int(), vrt.Bool()
+			k, v, r := vrt.Int(), vrt.Int(), false
+			if zvTombAt == -2 {
+				r = vrt.Bool()
+			} else {
+				r = len(a.keys) == zvTombAt // concrete: at most the chosen entry is a tombstone
+			}
 			if *prev != nil {
 				vrt.Assume(**prev < k)
 			}
@@ -212,6 +221,32 @@ func ZvC10_S1_Put() {
 	}
 }
 
+// zvTraverseAgrees: the public Traverse, run on the state an operation left behind, yields exactly
+// the live leaf entries of that state in order (whatever the operation wrote into internal nodes).
+func zvTraverseAgrees(t *BTree[int, int], p *zvAbs, id string) {
+	var gk, gv []int
+	vrt.Assert(!vrt.Try(func() { t.Traverse(func(k, v int) { gk = append(gk, k); gv = append(gv, v) }) }), id+"/no-panic")
+	// compare as a filtered sequence without forking on the (symbolic) tombstone flags
+	q := vrt.Int()
+	cnt, val := 0, 0
+	for i := range p.keys {
+		hit := vrt.And(!p.rem[i], p.keys[i] == q)
+		cnt += vrt.B2I(hit)
+		val = vrt.Ite(hit, p.vals[i], val)
+	}
+	gcnt, gval := 0, 0
+	for i := range gk {
+		hit := gk[i] == q
+		gcnt += vrt.B2I(hit)
+		gval = vrt.Ite(hit, gv[i], gval)
+	}
+	asc := true
+	for i := 0; i+1 < len(gk); i++ {
+		asc = vrt.And(asc, gk[i] < gk[i+1])
+	}
+	vrt.Assert(vrt.And(asc, gcnt == cnt, vrt.Implies(cnt > 0, gval == val), len(gk) == p.liveCount()), id+"/live-keys-once-ascending-with-values")
+}
+
 func ZvC10_S1_Remove() {
 	t, a := zvTree()
 	k := vrt.Int()
@@ -241,4 +276,116 @@ func ZvC10_S1_Traverse() {
 		}
 	}
 	vrt.Assert(vrt.And(vrt.SeqEqInt(gk, wk), vrt.SeqEqInt(gv, wv)), "C10/Traverse/live-keys-once-ascending-with-values")
+}
+
+// zvSmallTree: a leaf root with 0..3 entries (two Puts on a full leaf split it and grow the tree).
+// Thorough tier only. Two operations from every height-1 shape with up to 9 symbolic
+// keys do not finish in an hour: the ordering queries over a dozen 64-bit keys take z3 seconds each.
+func zvSmallTree() (*BTree[int, int], *zvAbs) {
+	h := 0 // leaf root only
+	zvFill = []int{2, 0, 0}
+	a := &zvAbs{}
+	var prev *int
+	var root *node[int, int]
+	if h == 0 {
+		zvFill = nil
+		root, _ = zvGenNode(0, true, &prev, a)
+	} else {
+		root = &node[int, int]{m: 2}
+		for i := 0; i < root.m; i++ {
+			c, f := zvGenNode(0, false, &prev, a)
+			key := f
+			if i == 0 {
+				key = vrt.Int()
+			}
+			root.children[i] = entry[int, int]{key: key, next: c}
+		}
+	}
+	zvFill = nil
+	live := 0
+	for _, r := range a.rem {
+		live += vrt.B2I(!r)
+	}
+	return &BTree[int, int]{root: root, n: live, height: h}, a
+}
+
+// ZvC10_S1_PutThenTraverse: a Put (which may split nodes and write separators) followed by the
+// public Traverse. Tombstone flags are concrete here — none, or exactly one at every position — so
+// that Traverse does not fork on them; keys and the inserted key stay symbolic.
+func ZvC10_S1_PutThenTraverse() {
+	zvTombAt = vrt.Choice(10) - 1
+	t, a := zvTree()
+	at := zvTombAt
+	zvTombAt = -2
+	if at >= len(a.keys) {
+		return // more positions than entries: same state as "none"
+	}
+	k, v := vrt.Int(), vrt.Int()
+	vrt.Assert(!vrt.Try(func() { t.Put(k, v) }), "C10/Put/no-panic")
+	p := zvPost(t, "C10/PutThenTraverse")
+	zvTraverseAgrees(t, p, "C10/Put/then-Traverse")
+}
+
+// ZvC10_S1_TwoSteps: two mutators in a row from an arbitrary valid tree, then observation through
+// the public API only (Traverse, Get of a probe, Size). One inductive step cannot see what an
+// operation leaves behind outside the abstract value and the structural invariant (counters,
+// caches, recycled nodes) that a LATER operation trusts.
+func ZvC10_S1_TwoSteps() {
+	if vrt.Tier() == 0 {
+		return // thorough tier only: ~3 min
+	}
+	t, a := zvSmallTree()
+	type ent struct {
+		k, v int
+		live bool
+	}
+	var m []ent
+	for i := range a.keys {
+		m = append(m, ent{a.keys[i], a.vals[i], !a.rem[i]})
+	}
+	for s := 0; s < 2; s++ {
+		if vrt.Choice(2) == 0 {
+			k, v := vrt.Int(), vrt.Int()
+			vrt.Assert(!vrt.Try(func() { t.Put(k, v) }), "C10/TwoSteps/no-panic")
+			any := false
+			for i := range m {
+				hit := m[i].k == k
+				any = vrt.Or(any, hit)
+				m[i].v = vrt.Ite(hit, v, m[i].v)
+				m[i].live = vrt.Or(m[i].live, hit)
+			}
+			m = append(m, ent{k, v, !any})
+		} else {
+			k := vrt.Int()
+			vrt.Assert(!vrt.Try(func() { t.Remove(k) }), "C10/TwoSteps/no-panic")
+			for i := range m {
+				m[i].live = vrt.And(m[i].live, m[i].k != k)
+			}
+		}
+	}
+	var gk, gv []int
+	vrt.Assert(!vrt.Try(func() { t.Traverse(func(k, v int) { gk = append(gk, k); gv = append(gv, v) }) }), "C10/TwoSteps/no-panic")
+	asc := true
+	for i := 0; i+1 < len(gk); i++ {
+		asc = vrt.And(asc, gk[i] < gk[i+1])
+	}
+	vrt.Assert(asc, "C10/TwoSteps/Traverse-ascending-without-repeats")
+	q := vrt.Int()
+	found, val := false, 0
+	for i := range m {
+		hit := vrt.And(m[i].live, m[i].k == q)
+		found = vrt.Or(found, hit)
+		val = vrt.Ite(hit, m[i].v, val)
+	}
+	tf, tv := false, 0
+	for i := range gk {
+		hit := gk[i] == q
+		tf = vrt.Or(tf, hit)
+		tv = vrt.Ite(hit, gv[i], tv)
+	}
+	vrt.Assert(vrt.And(tf == found, vrt.Implies(found, tv == val)), "C10/TwoSteps/Traverse-yields-exactly-the-live-keys-with-current-values")
+	v, ok := t.Get(q)
+	vrt.Assert(vrt.And(ok == found, vrt.Implies(found, v == val)), "C10/TwoSteps/Get-agrees")
+	vrt.Assert(vrt.And(t.Size() == len(gk), t.IsEmpty() == (len(gk) == 0)), "C10/TwoSteps/Size-counts-live-keys")
+	vrt.Cover("C10/TwoSteps/end")
 }
